@@ -105,26 +105,32 @@ package drpcsignal
 
 //@ func (*Chan).Get
 //@   props C19
+//@   modifies c.done, c.ch
 //@   ensures [chan] result != nil && result == c.ch && c.done == 1
 
 //@ func (*Chan).Make
 //@   props C19
+//@   modifies c.done, c.ch
 //@   ensures [made] c.ch != nil && c.done == 1
 
 //@ func (*Chan).Send
 //@   props C19
+//@   modifies c.done, c.ch
 //@   ensures [made] c.ch != nil && c.done == 1
 
 //@ func (*Chan).Recv
 //@   props C19
+//@   modifies c.done, c.ch
 //@   ensures [made] c.ch != nil && c.done == 1
 
 //@ func (*Chan).Full
 //@   props C19
+//@   modifies c.done, c.ch
 //@   ensures [made] c.ch != nil && c.done == 1
 
 // Close may be called at most once, and only by the owner: a second Close closes a closed channel.
 //@ func (*Chan).Close
 //@   props C19
+//@   modifies c.done, c.ch
 //@   requires [once] c.done == 0 || !closed(c.ch)
 //@   ensures [closed] c.ch != nil && c.done == 1 && closed(c.ch)
